@@ -78,7 +78,7 @@ struct ArbModel {
     bool certainly_active(const Mac &s) const { return !none_possible && active.size() == 1 && active.count(s); }
     void on_discover(const Mac &s, bool replied, bool faulted) {
         if (replied) { active.clear(); active.insert(s); none_possible = false; }
-        else if (faulted) { bool acc = none_possible || active.count(s); none_possible = false; if (acc) active.insert(s); }
+        else if (faulted) { bool acc = none_possible || active.count(s); if (acc) active.insert(s); } // a platform fault before or after the role was latched: taken or unchanged, both stay possible
         else { none_possible = false; active.erase(s); }
     }
     void on_reset() { none_possible = true; active.clear(); }
@@ -588,7 +588,7 @@ struct MonC07 : Monitor {
 
 // ---------------------------------------------------------------- C08: large properties by offset
 struct MonC08 : Monitor {
-    struct IconCache { bool have = false; Bytes data; };
+    struct IconCache { bool have = false; Bytes data; std::vector<Bytes> maybe; /* images the responder MAY hold: requested while a platform fault was injected (the fetch may have succeeded although the answer was lost) */ };
     std::map<int, IconCache> cache;
     std::map<std::pair<int, int>, Bytes> asm_;
     const char *prop() const override { return "C08"; }
@@ -609,7 +609,7 @@ struct MonC08 : Monitor {
     void on_delivery(World &w, Delivery &d) override {
         if (!d.ran) return;
         uint8_t tos = d.buf[OFF_TOS], op = d.buf[OFF_OP];
-        if (tos == 0 && op == W_RESET) { cache[d.node].have = false; clear_asm(d.node, true); return; }
+        if (tos == 0 && op == W_RESET) { cache[d.node].have = false; cache[d.node].maybe.clear(); clear_asm(d.node, true); return; }
         if (!disc_tos(tos) || op != W_QLT) return;
         const Node &n = *w.nodes[d.node];
         uint32_t gf = eff_getfail(w, d);
@@ -617,6 +617,7 @@ struct MonC08 : Monitor {
         for (auto &tx : d.txs) if (tx.channel == 0) rs.push_back(&tx);
         uint16_t seq = be16(d.buf + OFF_SEQ);
         if (seq == 0) { if (!rs.empty()) w.violate("C08", "seq-zero-answered", "QueryLargeTlv with sequence number 0 was answered"); w.note("c08_seq_zero"); return; }
+        if (d.internal_fault && d.buf[32] == 0x0E && n.attr.icon_avail && !cache[d.node].have && cache[d.node].maybe.size() < 4) cache[d.node].maybe.push_back(n.attr.icon);
         if (d.internal_fault && rs.empty()) return;
         if (rs.size() != 1 || rs[0]->data.size() < 34 || rs[0]->data[OFF_OP] != W_QLTRESP) { w.violate("C08", "no-single-response", fmt("QueryLargeTlv produced %zu frame(s)", rs.size())); return; }
         const Bytes &f = rs[0]->data;
@@ -636,6 +637,7 @@ struct MonC08 : Monitor {
         if (type == 0x0E) {
             bool avail = n.attr.icon_avail && !(gf & G_ICON);
             if (c.have) cands.push_back(c.data);
+            for (auto &m : c.maybe) cands.push_back(m);
             if (avail) { cands.push_back(n.attr.icon); if (!c.have && !d.internal_fault) { c.have = true; c.data = n.attr.icon; } }
             else cands.push_back(Bytes()); // the platform has no icon (any more): an implementation that does not cache reports it as unavailable
             if (d.internal_fault) cands.push_back(Bytes());
@@ -899,8 +901,19 @@ struct MonC13 : Monitor {
     // model-side "enumeration has begun": we sent a periodic Hello, or heard GAMMA (10) Hellos in one block, or a Discover arrived
     // while already enumerating; cleared when an enumeration (re)starts from Quiescent
     std::map<int, bool> bm;
+    // while the enumeration is Pausing, a tick leaves the 300 ms block deadline armed and in the future - otherwise no block ever ends
+    // again and the formula is never applied (states are reached through the documented flow only in C13 plans)
+    void armed_after_tick(World &w, uint64_t t, const glue_view &a, const char *ctx) {
+        if (!a.have_band || !a.have_enum || a.enum_state != 1) return;
+        w.note("c13_pausing_after_tick");
+        if (a.band_block_ts == 0 || a.band_block_ts <= t)
+            w.violate("C13", "block-timer-unarmed", fmt("%s at t=%llu leaves RepeatBand pausing with its block deadline %s: the load of the next blocks will never be evaluated", ctx, (unsigned long long)t, a.band_block_ts == 0 ? "unarmed" : "in the past"));
+        else if (a.band_block_ts > t + 300)
+            w.violate("C13", "block-timer-unarmed", fmt("%s at t=%llu leaves the block deadline %llu ms ahead (a block lasts 300 ms)", ctx, (unsigned long long)t, (unsigned long long)(a.band_block_ts - t)));
+    }
     void on_tick(World &w, TickRec &t) override {
         if (!t.before.have_band) return;
+        armed_after_tick(w, t.t, t.after, "tick");
         bool sent = false;
         for (auto &tx : t.txs) if (tx.channel == 1) sent = true;
         if (sent) bm[t.node] = true;
@@ -922,8 +935,10 @@ struct MonC13 : Monitor {
         if (d.after.band_block_ts != d.before.band_block_ts && d.after.band_block_ts != 0 && d.before.band_block_ts != 0 && !restart)
             block_end(w, d.node, d.after.band_block_ts - 300, d.before, d.after, bm[d.node], false);
         if (d.after.enum_state == 0) bm[d.node] = false;
+        armed_after_tick(w, std::max(d.t, w.port_now_ms()), d.after, "the tick after a frame");
     }
     void on_api(World &w, int, const Op &op, const glue_view &b, const glue_view &a, int64_t) override {
+        if (op.kind == OP_A_TICK) armed_after_tick(w, w.now, a, "tick");
         if (op.kind == OP_A_REINIT) { rm[0] = 0; bm[0] = false; last.have = false; return; }
         if (op.kind == OP_A_HEARD) { rm[0] += (uint64_t)op.a[0]; if (rm[0] >= 10) bm[0] = true; }
         else if (op.kind == OP_A_SETR) { rm[0] = (uint64_t)op.a[0]; if (rm[0] >= 10) bm[0] = true; }
